@@ -156,6 +156,8 @@ def run_case(case, seed):
             evals += 1
             X, Y = expected(dyn, con, dsig, csig)
             compare(gx, gy, X, Y, "single", dsig, csig)
+            if any(not np.array_equal(np.asarray(md[kp]), dyn[kp]) for kp, _ in dsig) or any(not np.array_equal(np.asarray(mc[kp]), con[kp]) for kp, _ in csig):
+                bad("C15/argument-mutated", "windowing modified its input fields")
             # causality on the decoded time stamps: no target time is an input time of the same sample
         # batched variant == per-trajectory stacked trajectory-major
         for nb in (1, 2, 3):
